@@ -22,10 +22,12 @@ use succinctly::dsv::{Dsv, DsvConfig, DsvCursor};
 mod dsvref;
 use dsvref::{scan, split, Cfg, Rows, Scan};
 
-const CFGS: [Cfg; 3] = [
+const CFGS: [Cfg; 4] = [
     Cfg { delimiter: b',', quote: b'"', newline: b'\n' },
     Cfg { delimiter: b'\t', quote: b'\'', newline: b'\r' },
     Cfg { delimiter: b';', quote: b'|', newline: 0x1e },
+    // the default special bytes rotated into other roles: a default byte hard-coded for any role shows here
+    Cfg { delimiter: b'\n', quote: b',', newline: b'"' },
 ];
 
 fn real_cfg(c: &Cfg) -> DsvConfig {
